@@ -565,6 +565,20 @@ pub fn check_bits<T: BitRepr>(ctx: &Ctx, what: &str, c: &T, out: &mut Outcome, r
     };
     out.evaluations += 1;
     out.count(&format!("bitcount_checked_{what}"));
+    // a first pass into a counting sink (no memory): a count that lies about a gigantic component
+    // must not make the harness materialise it three times
+    let real = catch(|| {
+        let mut s = CountSink::default();
+        c.write(&mut s).map(|()| s.len)
+    });
+    if let Ok(Ok(len)) = real {
+        if len != counted as u64 {
+            out.violation(format!("{}|count-mismatch|{what}", ctx.prop), format!("{what}: count_bits()={counted} but {len} bits written (counting sink)"), rp());
+            if len > enc::SERIALISE_CAP_BITS as u64 {
+                return;
+            }
+        }
+    }
     if counted > enc::SERIALISE_CAP_BITS {
         // count only
         let r = catch(|| {
